@@ -150,6 +150,23 @@ PROPS["C06"] = {
 }
 
 
+PROPS["C07"] = {
+    "level": "exploration",
+    "budget_s": {"quick": 70, "thorough": 2400},
+    "modes": [{"name": "", "runs": {"quick": 1500, "thorough": 40000}, "chunk": 50},
+              {"name": "writes", "runs": {"quick": 1500, "thorough": 40000}, "chunk": 50},
+              {"name": "token", "runs": {"quick": 300, "thorough": 3000}, "chunk": 100}],
+    "rule": ("one run = n matching rows (n in {0,1,2,3,5,7,20,99,100,101,...,205}, with duplicates and non-matching rows) and a query of a tape-chosen shape, iterated page by page over REST or gRPC with page_size in {0,1,2,n-1,n,n+1,100,101}; "
+             "mode 'writes': between page fetches another client inserts / deletes matching and non-matching rows. Oracles: every page <= page_size (0 => 100); every row alive for the whole iteration is returned, no content more often than it existed; "
+             "without a concurrent matching write the pages are exactly ceil(n/size) (token empty <=> last page) and the multiset is exact; mode 'token': malformed page tokens are answered 4xx / InvalidArgument-class. "
+             "non-trivial = iteration needed >= 2 pages (mode token: every run); distinct = hash of (query, n, page size, transport, interleaving)."),
+    "probes": ["probe_boundary_size", "probe_100_plus_rows", "probe_default_page_size", "interleaved_matching_insert", "interleaved_matching_delete", "interleaved_other_write", "malformed_tokens_rest", "malformed_tokens_grpc"],
+    "real": REAL_S, "stub": STUB_S,
+    "fault_kinds": {},
+    "assumptions": ["rows with equal content are indistinguishable in API output, so exactly-once is checked per content as a multiset bound"],
+}
+
+
 def evidence(prop, spec, tier, seed, records, deaths, unfinished, planned, wall_s, sim_wall_s, build_s, nworkers, n_new, known_hits):
     runs = 0
     execs = 0
